@@ -39,6 +39,59 @@ def _conj(c):
     return out
 
 
+def _calculator_answer(F):
+    """evaluate the function that consults the stored calculator (found as the callee the scan treats as `the calculator is
+    asked`; written inline in the scan it is covered by R07.h's evaluation of the inserted value): on every feasible
+    non-panicking path the value is Ok(Custom(<the indirect call's result>)) when the calculator is present, whatever
+    the result is, and Ok(Default) when it is absent"""
+    cands = [p for p in F.fns if p.endswith("::calculate_stack_usage_for_local_func") and F.fns[p].get("thir")]
+    if not cands:
+        # no separate helper: is the calculator consulted at all?  (inline form: R07.h compares the inserted value)
+        scan = [p for p in F.fns if p.endswith("::stack_validate") and F.fns[p].get("thir")]
+        inline = any("calculator" in repr(F.fns[p]["thir"]["body"]) for p in scan)
+        return inline, "no helper function; the scan consults the calculator inline: %s" % inline
+    if len(cands) != 1:
+        return False, "candidates: %s" % cands
+    path = cands[0]
+    fn = F.fns[path]
+    ev = symex.Evaluator(F)
+    args = [ev.sym_for(q["pat"]["name"] if q["pat"] and q["pat"].get("k") == "bind" else "self", q["ty"]) for q in fn["thir"]["params"]]
+    outs = [(v, st) for v, st in (ev.run_fn(path, args) or []) if st.feasible and not (st.exit is not None and st.exit[0] == "panic")]
+    probs, n_some, n_none = [], 0, 0
+    for v, st in outs:
+        if st.unrec:
+            probs.append("unrecognised: %s" % (st.unrec[0],))
+            continue
+        cs = [_shc(c) for c in st.conds]
+        on_calc = [c for c in cs if "calculator" in c and re.match(r"^!?\(?(is_Some|is_None)\(", c.replace("!(", "!(", 1))]
+        extra = [c for c in cs if c not in on_calc]
+        some = any(c.startswith("is_Some(") for c in on_calc)
+        if not (isinstance(v, tuple) and len(v) >= 4 and v[0] == "struct" and v[1].endswith("Result") and v[2] == "Ok"):
+            if some and not extra:
+                probs.append("with a calculator the result is %s" % _shc(v)[:80])
+            continue
+        inner = dict(v[3]).get("0")
+        variant = inner[2] if isinstance(inner, tuple) and len(inner) >= 4 and inner[0] == "struct" else None
+        if extra:
+            probs.append("the recorded size depends on a further condition: %s -> %s" % (extra[0][:120], variant))
+            continue
+        if some:
+            n_some += 1
+            payload = dict(inner[3]).get("0") if variant == "Custom" else None
+            is_call = isinstance(payload, tuple) and payload[:2] == ("call", "indirect") and "calculator" in repr(payload[2])[:400]
+            if not is_call:
+                probs.append("with a calculator the recorded size is %s(%s), not Custom(its result)" % (variant, _shc(payload)[:80] if payload is not None else ""))
+        else:
+            n_none += 1
+            if variant != "Default":
+                probs.append("without a calculator the recorded size is %s" % variant)
+    if not n_some:
+        probs.append("no path on which the calculator is consulted")
+    if not n_none:
+        probs.append("no path for the absent calculator")
+    return not probs, sorted(set(probs))[:4] or "%d path(s) with a calculator: Custom(result); %d without: Default" % (n_some, n_none)
+
+
 def _usage_pass(F):
     import models
     cands = [p for p in F.fns if p.endswith("::stack_validate") and F.fns[p].get("thir")]
@@ -334,6 +387,12 @@ def run(rep, tier, parts=("interp", "api", "jit")):
         okh, foundh = _usage_pass(F)
         rep.ob(rh, "stack_validate", okh, "loop body of the stack-usage pass", expected="insert(pc + 1 + sext64(imm), calculator(prog, pc + 1 + sext64(imm))) exactly under opc == 0x85 && src == 1",
                found=foundh)
+
+        # R07.q what the table receives is the calculator's answer itself
+        rq = rep.rule("R07.q", "the frame size recorded for a function is exactly what the registered calculator returned for it (Custom(result), for every u16 including 0), and the default only when no calculator is registered", floor=1)
+        okq, foundq = _calculator_answer(F)
+        rep.ob(rq, "calculator-answer", okq, "value of the helper that asks the calculator, on each of its paths",
+               expected="calculator is Some: Ok(Custom(calculator(prog, pc, data))) under no further condition; None: Ok(Default)", found=foundq)
 
         # R07.d discriminator agreement
         rd = rep.rule("R07.d", "is-a-local-call discriminator (opc == CALL && src == 1) agrees in verifier, interpreter, JIT and stack-usage pass", floor=4)
